@@ -775,6 +775,7 @@ def b_object_setattr(I, a, k):
 
 
 _HANDLERS[object.__setattr__] = b_object_setattr
+_HANDLERS[setattr] = b_object_setattr
 
 
 def b_assume(I, a, k):
